@@ -84,6 +84,11 @@ impl DocumentBuilder {
         span: Span,
         xot: &mut Xot,
     ) -> Result<(), ParseError> {
+        // only the default namespace can be undeclared: xmlns:p="" leaves p
+        // without a namespace (Namespaces in XML 1.0, "No Prefix Undeclaring")
+        if !prefix.is_empty() && namespace_uri.is_empty() {
+            return Err(ParseError::UnknownPrefix(prefix.to_string(), span));
+        }
         let prefix_id = xot.prefix_lookup.get_id_mut(prefix);
         let namespace_id = xot.namespace_lookup.get_id_mut(namespace_uri);
         let namespaces = &mut self.element_builder.as_mut().unwrap().namespaces;
